@@ -1433,6 +1433,19 @@ func (it *Interp) binop(fr *Frame, op token.Token, l, r Value, pos token.Pos) Va
 			if lin.ProveGE0(it.G, lin.AddC(d, -1)) || lin.ProveGE0(it.G, lin.AddC(lin.Neg(d), -1)) {
 				return BoolV{Known: true, Val: op == token.NEQ}
 			}
+			// one side is excluded by what is known: equality is a single inequality
+			if lin.ProveGE0(it.G, d) { // d >= 0: d == 0 iff -d >= 0; d != 0 iff d-1 >= 0
+				if op == token.EQL {
+					return BoolV{Cond: lin.Neg(d)}
+				}
+				return BoolV{Cond: lin.AddC(d, -1)}
+			}
+			if lin.ProveGE0(it.G, lin.Neg(d)) {
+				if op == token.EQL {
+					return BoolV{Cond: d}
+				}
+				return BoolV{Cond: lin.AddC(lin.Neg(d), -1)}
+			}
 			return BoolV{}
 		}
 		return Opaque{Why: "int op " + op.String()}
